@@ -277,7 +277,7 @@ def run(ctx, args):
 
     corpus = load_corpus()
     batches = []
-    per = 400 if quick else 500
+    per = 460 if quick else 500
     gen = [dg.gen_case(rng, "gen-%d" % i) for i in range(n_gen)]
     # systematic single-function layouts: every sequence of <= 1 (quick) / <= 3 (thorough) defer statements over
     # {top level, taken if, skipped if, for of 0 / 2 iterations} x {with, without argument node} x fault position
